@@ -196,6 +196,8 @@ def run_c17(res, tier, seed):
             run_e2e_session(res, f"{base}/multi{k}", random.Random(seed * 1000 + k))
         for k in range(2 if tier == "quick" else 12):
             run_e2e_manifest(res, f"{base}/manifest{k}", random.Random(seed * 1000 + 500 + k), "C17")
+        for k in range(2 if tier == "quick" else 12):
+            run_e2e_chain(res, f"{base}/chain{k}", random.Random(seed * 1000 + 800 + k))
     finally:
         shutil.rmtree(base, ignore_errors=True)
     res.cov["rule"] = (f"{n_trees} generated project trees on disk (application + 0-3 registry (build/packages) and path dependencies, nested "
@@ -266,6 +268,83 @@ def run_e2e_manifest(res, tb, rng, prop):
                 history.append(f"gleam.toml {label} ({how})")
                 if not ask(f"gleam.toml {label}, re-read ({how})"):
                     return
+    finally:
+        c.close()
+
+
+def run_e2e_chain(res, tb, rng):
+    """app -> lib -> core, both under build/packages: what a module of `lib` can import (its own direct dependency `core`)
+    and what the application cannot (the transitive `core`) must not change when the package graph is rebuilt during the
+    session (manifest re-read, a file of another root opened)."""
+    def w(path, text):
+        os.makedirs(os.path.dirname(path), exist_ok=True)
+        open(path, "w").write(text)
+    w(f"{tb}/app/gleam.toml", 'name = "app"\n[dependencies]\nlib = "1.0"\n')
+    w(f"{tb}/app/build/packages/lib/gleam.toml", 'name = "lib"\n[dependencies]\ncore = "1.0"\n')
+    w(f"{tb}/app/build/packages/core/gleam.toml", 'name = "core"\n')
+    core_src = "pub fn helper() {\n  1\n}\n"
+    lib_src = "import core/util\n\npub fn api() {\n  util.helper()\n}\n"
+    app_src = "import lib/api\nimport core/util\n\npub fn main() {\n  api.api()\n  util.helper()\n}\n"
+    w(f"{tb}/app/build/packages/core/src/core/util.gleam", core_src)
+    w(f"{tb}/app/build/packages/lib/src/lib/api.gleam", lib_src)
+    w(f"{tb}/app/src/app.gleam", app_src)
+    w(f"{tb}/other/gleam.toml", 'name = "other"\n')
+    w(f"{tb}/other/src/other.gleam", "pub fn o() { 1 }\n")
+    w(f"{tb}/loose/free.gleam", "pub fn lonely() { 1 }\n")
+    U = lambda p: "file://" + p
+    app_u, lib_u = U(f"{tb}/app/src/app.gleam"), U(f"{tb}/app/build/packages/lib/src/lib/api.gleam")
+    core_p = f"{tb}/app/build/packages/core/src/core/util.gleam"
+    c = lsp.Lsp(tb)
+    try:
+        if c.initialize() is None:
+            return
+        c.notify("textDocument/didOpen", {"textDocument": {"uri": app_u, "languageId": "gleam", "version": 1, "text": app_src}})
+        c.notify("textDocument/didOpen", {"textDocument": {"uri": lib_u, "languageId": "gleam", "version": 1, "text": lib_src}})
+        history = []
+
+        def target(uri, line, col):
+            r = c.request("textDocument/definition", {"textDocument": {"uri": uri}, "position": {"line": line, "character": col}}, timeout=30)
+            res.cov["evaluations"] += 1
+            if r and r.get("result"):
+                loc = r["result"][0] if isinstance(r["result"], list) else r["result"]
+                t = loc.get("uri") or loc.get("targetUri")
+                return os.path.normpath(t[7:]) if t and t.startswith("file://") else t
+            return None
+
+        def ask(stage):
+            t1 = target(lib_u, 3, 7)        # util.helper() inside lib: core is lib's direct dependency
+            if t1 != core_p:
+                res.add_violation("C17/import-of-direct-dependency-unresolved", f"after {stage}: `util.helper` inside build/packages/lib (which depends on core) resolves to {str(t1).replace(tb, '')}",
+                                  {"tree": tb, "history": list(history), "asked_in": "build/packages/lib/src/lib/api.gleam"})
+                return False
+            t2 = target(app_u, 5, 7)        # util.helper() inside app: core is only a transitive dependency
+            if t2 is not None:
+                res.add_violation("C17/import-of-transitive-dependency-resolves", f"after {stage}: module core/util of `core`, not a direct dependency of the application, resolves to {str(t2).replace(tb, '')}",
+                                  {"tree": tb, "history": list(history), "asked_in": "src/app.gleam"})
+                return False
+            t3 = target(app_u, 4, 7)        # api.api() inside app: lib is direct
+            if t3 != f"{tb}/app/build/packages/lib/src/lib/api.gleam":
+                res.add_violation("C17/import-of-direct-dependency-unresolved", f"after {stage}: `api.api` in the application resolves to {str(t3).replace(tb, '')}",
+                                  {"tree": tb, "history": list(history), "asked_in": "src/app.gleam"})
+                return False
+            return True
+
+        if not ask("the first documents were opened"):
+            return
+        events = ["manifest-event", "other-root-opened", "free-file-opened", "dependency-manifest-event"]
+        rng.shuffle(events)
+        for ev in events[: rng.randrange(2, 5)]:
+            if ev == "manifest-event":
+                c.notify("workspace/didChangeWatchedFiles", {"changes": [{"uri": U(f"{tb}/app/gleam.toml"), "type": 2}]})
+            elif ev == "dependency-manifest-event":
+                c.notify("workspace/didChangeWatchedFiles", {"changes": [{"uri": U(f"{tb}/app/build/packages/lib/gleam.toml"), "type": 2}]})
+            elif ev == "other-root-opened":
+                c.notify("textDocument/didOpen", {"textDocument": {"uri": U(f"{tb}/other/src/other.gleam"), "languageId": "gleam", "version": 1, "text": "pub fn o() { 1 }\n"}})
+            else:
+                c.notify("textDocument/didOpen", {"textDocument": {"uri": U(f"{tb}/loose/free.gleam"), "languageId": "gleam", "version": 1, "text": "pub fn lonely() { 1 }\n"}})
+            history.append(ev)
+            if not ask(ev):
+                return
     finally:
         c.close()
 
